@@ -576,16 +576,26 @@ pub fn run(tier: Tier) -> i32 {
                 if std::env::var("VERIF_DEBUG").is_ok() {
                     eprintln!("state {name}: {e}; exporter alive {}", exporter.alive());
                 }
-                v("no-http-response".into(), e);
-                // never keep talking to a process that failed once
+                // never keep talking to a process that failed once; ask a fresh one again with a
+                // generous deadline before calling it a verdict (a loaded machine is not one)
                 drop(exporter);
                 server.set(Obs::CloseEarly);
                 exporter = Exporter::start(&dir, &obs_path);
-                failures += 1;
-                if failures >= 5 {
-                    break;
+                server.set(Obs::Bytes(bytes.clone()));
+                match get(&exporter.addr, StdDuration::from_secs(20)) {
+                    Ok(r) => r,
+                    Err(e2) => {
+                        v("no-http-response".into(), format!("{e}; again on a fresh process: {e2}"));
+                        drop(exporter);
+                        server.set(Obs::CloseEarly);
+                        exporter = Exporter::start(&dir, &obs_path);
+                        failures += 1;
+                        if failures >= 5 {
+                            break;
+                        }
+                        continue;
+                    }
                 }
-                continue;
             }
         };
         if resp.status != 200 {
